@@ -64,6 +64,13 @@ pub struct Scenario {
     pub hosts: Vec<HostSpec>,
     /// (after this many steps, action)
     pub ctl: Vec<(u32, Ctl)>,
+    /// `Builder::simulation_duration` in microseconds.  None: generous (never
+    /// reached).  Some: the run is stepped past it; a step that ends beyond the
+    /// duration while a client is still running returns the "Ran for duration"
+    /// error, the driver ignores it and keeps stepping, and every clock clause
+    /// is asserted on those steps like on any other.
+    #[serde(default)]
+    pub sim_duration_us: Option<u64>,
 }
 
 #[derive(Clone, Debug)]
@@ -240,11 +247,12 @@ pub fn run(sc: &Scenario) -> Outcome {
         idle_ms: (tick_ms / 16).max(3),
     };
 
+    let duration = match sc.sim_duration_us {
+        Some(us) => Duration::from_micros(us),
+        None => Duration::from_secs(3600 * 24).max(tick * (sc.steps + 2)),
+    };
     let mut b = turmoil::Builder::new();
-    b.tick_duration(tick)
-        .epoch(epoch)
-        .rng_seed(sc.seed)
-        .simulation_duration(Duration::from_secs(3600 * 24).max(tick * (sc.steps + 2)));
+    b.tick_duration(tick).epoch(epoch).rng_seed(sc.seed).simulation_duration(duration);
     if sc.random_order {
         b.enable_random_order();
     }
@@ -277,6 +285,11 @@ pub fn run(sc: &Scenario) -> Outcome {
     let mut multi_step_timer = false;
     let mut reg_offset = vec![Duration::ZERO; n];
     let mut late = false;
+    // steps that returned the time-budget error (the driver steps on)
+    let mut err_steps = 0u64;
+    let mut first_err: Option<u64> = None;
+    let mut reg_after_err = false;
+    let mut ctl_after_err = false;
     let mut crashes = 0;
     let mut bounces = 0;
     let mut non_dividing = false;
@@ -301,10 +314,16 @@ pub fn run(sc: &Scenario) -> Outcome {
             for (i, h) in sc.hosts.iter().enumerate() {
                 if !registered[i] && h.reg_after <= $done {
                     registered[i] = true;
-                    reg_offset[i] = sim.elapsed();
+                    // the simulation time at which the host is registered, from
+                    // the model (tick * completed calls of step), not from the
+                    // code under test
+                    reg_offset[i] = tick * $done;
                     await_start[i] = Some(0);
                     if $done > 0 {
                         late = true;
+                    }
+                    if first_err.is_some() {
+                        reg_after_err = true;
                     }
                     let name = format!("h{i}");
                     let tasks = h.tasks.clone();
@@ -332,6 +351,7 @@ pub fn run(sc: &Scenario) -> Outcome {
                     Ctl::Crash(i) if *i < n && registered[*i] && !sc.hosts[*i].client => {
                         sim.crash(format!("h{i}"));
                         crashes += 1;
+                        ctl_after_err |= first_err.is_some();
                         crashed[*i] = true;
                         await_start[*i] = None;
                         sh.pending.borrow_mut().retain(|_, p| p.host != *i);
@@ -339,6 +359,7 @@ pub fn run(sc: &Scenario) -> Outcome {
                     Ctl::Bounce(i) if *i < n && registered[*i] && !sc.hosts[*i].client => {
                         sim.bounce(format!("h{i}"));
                         bounces += 1;
+                        ctl_after_err |= first_err.is_some();
                         crashed[*i] = false;
                         sh.finished.borrow_mut()[*i] = false;
                         await_start[*i] = Some(sh.starts.borrow()[*i]);
@@ -350,23 +371,45 @@ pub fn run(sc: &Scenario) -> Outcome {
         }
         let k = done as u64 + 1;
         sh.step.set(k);
-        if let Err(e) = sim.step() {
-            out.fail("step-error", format!("step {k} returned error {e}"));
-            return out;
-        }
-        // --- Sim-side clauses
         let want = tick * (k as u32);
+        if let Err(e) = sim.step() {
+            // The only error a step of this workload may return is the
+            // time-budget one, and only once the simulation time is beyond the
+            // configured duration.  It is a *result* of the call, not an
+            // exemption: "every call to step advances the simulation clock
+            // and the clock of every registered host", so every clause below
+            // is asserted for this step too and the driver keeps stepping.
+            let msg = e.to_string();
+            if sc.sim_duration_us.is_none() || !msg.starts_with("Ran for duration") || want <= duration {
+                out.fail(
+                    "step-error",
+                    format!("step {k} (sim time {want:?}, simulation_duration {duration:?}) returned error {msg}"),
+                );
+                return out;
+            }
+            err_steps += 1;
+            first_err.get_or_insert(k);
+        }
+        // --- Sim-side clauses (whatever the step returned)
         if sim.elapsed() != want {
             out.fail(
                 "sim-elapsed-not-tick-times-steps",
-                format!("after {k} steps Sim::elapsed={:?}, tick*steps={:?}", sim.elapsed(), want),
+                format!(
+                    "after {k} calls of step ({err_steps} of them returned the time-budget error) Sim::elapsed={:?}, tick*steps={:?}",
+                    sim.elapsed(),
+                    want
+                ),
             );
             return out;
         }
         if sim.since_epoch() != epoch_d + want {
             out.fail(
                 "sim-since-epoch",
-                format!("after {k} steps Sim::since_epoch={:?}, epoch+elapsed={:?}", sim.since_epoch(), epoch_d + want),
+                format!(
+                    "after {k} calls of step ({err_steps} of them returned the time-budget error) Sim::since_epoch={:?}, epoch+elapsed={:?}",
+                    sim.since_epoch(),
+                    epoch_d + want
+                ),
             );
             return out;
         }
@@ -554,6 +597,29 @@ pub fn run(sc: &Scenario) -> Outcome {
     if sc.random_order {
         out.label("random-order");
     }
+    match (sc.sim_duration_us, first_err) {
+        (None, _) => out.label("duration:generous"),
+        (Some(_), None) => out.label("duration:short-but-no-step-failed(no-client-running-beyond-it)"),
+        (Some(_), Some(f)) => {
+            out.label("duration:crossed,driver-steps-on-after-the-error");
+            if duration.as_nanos() % tick.as_nanos().max(1) != 0 {
+                out.label("duration:crossed:not-a-multiple-of-the-tick");
+            }
+            if f == 1 {
+                out.label("duration:crossed:first-step-already-fails");
+            }
+            if (sc.steps as u64) > f {
+                out.label("duration:crossed:more-steps-after-the-first-failing-one");
+            }
+            if reg_after_err {
+                out.label("duration:crossed:host-or-client-registered-after-a-failing-step");
+            }
+            if ctl_after_err {
+                out.label("duration:crossed:crash-or-bounce-after-a-failing-step");
+            }
+        }
+    }
+    out.count("steps that returned the time-budget error (all clauses asserted on them)", err_steps);
     out.label(if epoch_d.is_zero() {
         "epoch:unix-epoch"
     } else if epoch_d.subsec_nanos() % 1_000_000 != 0 {
@@ -573,7 +639,7 @@ pub fn run(sc: &Scenario) -> Outcome {
     out.count("pending timers checked for being due (per step)", due_checked);
     out.count("software starts checked", start_checked);
     out.count("observations", checked_from as u64);
-    out.nontrivial = checked_from >= 4 && (non_dividing || late || crashes + bounces > 0);
+    out.nontrivial = checked_from >= 4 && (non_dividing || late || crashes + bounces > 0 || err_steps > 0);
     out
 }
 
@@ -623,6 +689,90 @@ pub fn run_frac(p: &FracProbe) -> Outcome {
             }
         }
         None => out.fail("probe-did-not-finish", "client never finished"),
+    }
+    out
+}
+
+/// Probe scenario for the other way a step can return an error: the software
+/// of a host / client returns `Err`.  Three hosts registered in the order
+/// h0, c1, h2 (the order steps run them without random order): h0 and h2
+/// observe the clock every millisecond, client c1 sleeps `fail_after_ms` and
+/// returns an error.  The driver keeps stepping.  Asserted on every call of
+/// step, whatever it returned: Sim::elapsed == tick * calls, and every
+/// in-host observation lies in the window of the step it was made in.
+/// Used only through a replay file (the random tiers never let software fail).
+#[derive(Clone, Debug, Serialize, Deserialize)]
+pub struct SoftErrProbe {
+    pub tick_ms: u64,
+    pub fail_after_ms: u64,
+    pub steps: u32,
+}
+
+pub fn run_soft_err(p: &SoftErrProbe) -> Outcome {
+    let mut out = Outcome::ok();
+    out.nontrivial = true;
+    out.label("software-error-probe");
+    let tick = Duration::from_millis(p.tick_ms.max(1));
+    let step_no = Rc::new(Cell::new(0u64));
+    let log: Rc<RefCell<Vec<(usize, u64, Duration)>>> = Rc::new(RefCell::new(Vec::new()));
+    let mut b = turmoil::Builder::new();
+    b.tick_duration(tick)
+        .epoch(SystemTime::UNIX_EPOCH + Duration::from_secs(1))
+        .rng_seed(1)
+        .simulation_duration(Duration::from_secs(3600 * 24));
+    let mut sim = b.build();
+    let observer = |i: usize| {
+        let (step_no, log) = (step_no.clone(), log.clone());
+        move || {
+            let (step_no, log) = (step_no.clone(), log.clone());
+            async move {
+                loop {
+                    log.borrow_mut().push((i, step_no.get(), turmoil::sim_elapsed().unwrap()));
+                    tokio::time::sleep(Duration::from_millis(1)).await;
+                }
+            }
+        }
+    };
+    sim.host("h0", observer(0));
+    let d = Duration::from_millis(p.fail_after_ms);
+    sim.client("c1", async move {
+        tokio::time::sleep(d).await;
+        Err("software failure".into())
+    });
+    sim.host("h2", observer(2));
+    let mut errs = 0u32;
+    let mut seen = 0usize;
+    for k in 1..=p.steps as u64 {
+        step_no.set(k);
+        let failed = sim.step().is_err();
+        errs += failed as u32;
+        let want = tick * k as u32;
+        if sim.elapsed() != want {
+            out.fail(
+                "software-error-step:sim-clock-not-advanced",
+                format!(
+                    "call {k} of step returned {}; {errs} call(s) so far returned the error of c1's software; Sim::elapsed={:?}, tick*calls={want:?}",
+                    if failed { "Err" } else { "Ok" },
+                    sim.elapsed()
+                ),
+            );
+            return out;
+        }
+        let lg = log.borrow();
+        for (h, st, t) in &lg[seen..] {
+            let (lo, hi) = (tick * (*st as u32 - 1), tick * *st as u32);
+            if *t < lo || *t > hi {
+                out.fail(
+                    "software-error-step:host-clock-outside-step-window",
+                    format!("h{h} observed sim_elapsed {t:?} during call {st} of step, window [{lo:?},{hi:?}]; {errs} call(s) so far returned the software error"),
+                );
+                return out;
+            }
+        }
+        seen = lg.len();
+    }
+    if errs == 0 {
+        out.fail("probe-did-not-fail", "no call of step returned the software error");
     }
     out
 }
@@ -784,6 +934,47 @@ fn wide_tick_ms() -> BoxedStrategy<u64> {
     .boxed()
 }
 
+/// How `Builder::simulation_duration` relates to the run (resolved against
+/// the tick and the number of steps once those are drawn).
+#[derive(Clone, Copy, Debug)]
+enum DurSel {
+    /// never reached
+    Generous,
+    /// anywhere in 0 ..= tick*steps (parts per million of the run; in general
+    /// not a multiple of the tick; shrinks towards 0 = the first step fails)
+    Anywhere(u32),
+    /// exactly k ticks (the step that ends *at* the duration is still within it)
+    Ticks(u32),
+    /// k ticks plus / minus one microsecond
+    TicksOff(u32, bool),
+}
+
+impl DurSel {
+    /// Always inside 0 ..= tick_us*steps (the box `fuzz_sanitize` clamps into).
+    fn resolve(self, tick_us: u64, steps: u32) -> Option<u64> {
+        let total = tick_us * steps as u64;
+        match self {
+            DurSel::Generous => None,
+            DurSel::Anywhere(ppm) => Some((total as u128 * ppm.min(1_000_000) as u128 / 1_000_000) as u64),
+            DurSel::Ticks(k) => Some((k % (steps + 1)) as u64 * tick_us),
+            DurSel::TicksOff(k, up) => {
+                let d = (k % (steps + 1)) as u64 * tick_us;
+                Some(if up { (d + 1).min(total) } else { d.saturating_sub(1) })
+            }
+        }
+    }
+}
+
+fn duration_strategy() -> BoxedStrategy<DurSel> {
+    prop_oneof![
+        5 => Just(DurSel::Generous),
+        3 => (0u32..=1_000_000).prop_map(DurSel::Anywhere),
+        1 => (0u32..60).prop_map(DurSel::Ticks),
+        1 => (0u32..60, any::<bool>()).prop_map(|(k, up)| DurSel::TicksOff(k, up)),
+    ]
+    .boxed()
+}
+
 pub fn strategy(class: TickClass) -> BoxedStrategy<Scenario> {
     let tick = if class == TickClass::Fractional {
         prop_oneof![
@@ -804,8 +995,9 @@ pub fn strategy(class: TickClass) -> BoxedStrategy<Scenario> {
         .prop_map(|us| (us, 0u32))
         .boxed()
     };
-    (tick, epoch_strategy(), any::<u64>(), any::<bool>(), 4u32..60)
-        .prop_flat_map(move |((tick_us, tick_sub_ns), (epoch_ms, epoch_sub_ns), seed, random_order, steps)| {
+    (tick, epoch_strategy(), any::<u64>(), any::<bool>(), 4u32..60, duration_strategy())
+        .prop_flat_map(move |((tick_us, tick_sub_ns), (epoch_ms, epoch_sub_ns), seed, random_order, steps, dur)| {
+            let sim_duration_us = dur.resolve(tick_us, steps);
             let wide = match class {
                 TickClass::Wide => Some(tick_us / 1000),
                 // fractional ticks of 1 s and more also get scaled timers
@@ -838,6 +1030,7 @@ pub fn strategy(class: TickClass) -> BoxedStrategy<Scenario> {
                         steps,
                         hosts,
                         ctl,
+                        sim_duration_us,
                     }
                 })
         })
@@ -851,9 +1044,10 @@ fn check(tier: Tier, seed: u64) -> i32 {
     ctx.random("wide-ticks", tier.pick(16_000, 120_000), &|| strategy(TickClass::Wide), &run);
     ctx.random("fractional", tier.pick(2_000, 20_000), &|| strategy(TickClass::Fractional), &run);
     ctx.finish(
-        "random scenarios (tick, epoch, 1-4 hosts/clients with sleep/interval/timeout/sleep_until tasks, late registration, crash/bounce controller); three tick families: whole-ms ticks 1 ms..1 s with small absolute timer lengths, wide-ticks = whole-ms ticks over all orders of magnitude (1 ms .. ~50 days: whole seconds, whole minutes, seconds plus a sub-second part, 1 s / 1 min / u16 ms / u32::MAX ns / u32::MAX us / i32 and u32::MAX ms boundaries +-1) with timer lengths scaled to the tick (k ticks +-1 ms, up to 3 ticks, fractions, the whole-second and sub-second parts of the tick), and fractional ticks; the endless observer loop of a host sleeps max(3 ms, tick/16) so the cost per step is bounded; the epoch is a generated dimension: UNIX_EPOCH, UNIX_EPOCH+1ns, whole seconds (incl. 2^31 / 2^32 boundaries and year 9999), whole ms, whole us and arbitrary ns precision, never before UNIX_EPOCH (Sim::new panics there); a fresh Sim must report elapsed 0 and since_epoch == configured epoch, every step checks Sim::elapsed == tick*steps and Sim::since_epoch == configured epoch + tick*steps, and every in-host observation checks offset/epoch identities against the CONFIGURED epoch, monotonicity, the step window and exact timer firing; liveness after every step: software registered or bounced before the step has been polled during it, and every timer a running (not crashed, not finished) host waits on whose instant (sim time at which the wait began + whole-ms length) lies strictly before the end of the step has returned. Non-trivial = >=4 observations and (a timer length not divisible by the tick, or a late registration, or a crash/bounce). Distinct by scenario hash.",
+        "random scenarios (tick, epoch, 1-4 hosts/clients with sleep/interval/timeout/sleep_until tasks, late registration, crash/bounce controller); three tick families: whole-ms ticks 1 ms..1 s with small absolute timer lengths, wide-ticks = whole-ms ticks over all orders of magnitude (1 ms .. ~50 days: whole seconds, whole minutes, seconds plus a sub-second part, 1 s / 1 min / u16 ms / u32::MAX ns / u32::MAX us / i32 and u32::MAX ms boundaries +-1) with timer lengths scaled to the tick (k ticks +-1 ms, up to 3 ticks, fractions, the whole-second and sub-second parts of the tick), and fractional ticks; the endless observer loop of a host sleeps max(3 ms, tick/16) so the cost per step is bounded; the epoch is a generated dimension: UNIX_EPOCH, UNIX_EPOCH+1ns, whole seconds (incl. 2^31 / 2^32 boundaries and year 9999), whole ms, whole us and arbitrary ns precision, never before UNIX_EPOCH (Sim::new panics there); Builder::simulation_duration is a generated dimension: generous (half of the cases) or anywhere in 0..=tick*steps with microsecond precision (in general not a multiple of the tick), exactly k ticks, k ticks +-1 us, so that the run is stepped past it at an arbitrary step; the driver steps manually, ignores the time-budget error (the only error accepted, and only once tick*calls exceeds the configured duration) and keeps calling step, with hosts/clients registered and hosts crashed/bounced after failing steps too; every clause is asserted on every call of step whatever it returned; a fresh Sim must report elapsed 0 and since_epoch == configured epoch, every step checks Sim::elapsed == tick*steps and Sim::since_epoch == configured epoch + tick*steps, and every in-host observation checks offset/epoch identities against the CONFIGURED epoch and the MODEL registration offset (tick * calls of step made before the registration), monotonicity, the step window and exact timer firing; liveness after every step: software registered or bounced before the step has been polled during it, and every timer a running (not crashed, not finished) host waits on whose instant (sim time at which the wait began + whole-ms length) lies strictly before the end of the step has returned. Non-trivial = >=4 observations and (a timer length not divisible by the tick, or a late registration, or a crash/bounce, or a step that returned the time-budget error). Distinct by scenario hash.",
         &[
             "host programs use only tokio::time and turmoil clock getters",
+            "host software never returns an error or panics in the generated tiers (a step that returns early because software failed is a different situation from the time-budget error; it is covered by the replay-only probe sub `soft-err-probe`); clients never finish, so once a client is registered every step that ends beyond the configured duration reports the time-budget error",
             "fractional (non whole-millisecond) ticks, including ns-precision ticks from 1 ns, are generated as a separate class; the upper window edge and timer-exactness clauses are excluded there (known finding F-C05-1) and counted; the lower window edge, never-early timers, the liveness clauses and all epoch/offset identities are still checked",
             "liveness is not demanded of crashed hosts or of hosts whose software has returned (turmoil does not run them); a timer due exactly at the end of a step may fire in that step or at the start of the next",
             "ticks above 2^32+1 ms (~50 days) are not generated",
@@ -865,6 +1059,7 @@ fn check(tier: Tier, seed: u64) -> i32 {
 fn replay(sub: &str, v: &Value) -> Result<Outcome, String> {
     match sub {
         "frac-probe" => replay_as::<FracProbe>(v, &run_frac),
+        "soft-err-probe" => replay_as::<SoftErrProbe>(v, &run_soft_err),
         _ => replay_as::<Scenario>(v, &run),
     }
 }
@@ -879,6 +1074,7 @@ fn replay(sub: &str, v: &Value) -> Result<Outcome, String> {
 /// * epoch: 0 ..= (year 9999)*1000+999 ms plus 0..=999 999 ns (`epoch_strategy`:
 ///   every branch is a subset of that box, and the box's last branch covers it);
 /// * seed, random_order: any; steps 4..=59;
+/// * `sim_duration_us`: None or 0 ..= tick_us*steps (`DurSel::resolve`);
 /// * 1..=4 hosts, `reg_after` < steps, 1..=3 tasks each in `task_strategy(!client, None)`:
 ///   lengths 0..=120 or 1000 ms (Sleeps 1..=5, SleepUntil 1..=4 entries), Interval
 ///   period 1..=40 x 1..=6 ticks, Timeouts 1..=3 pairs (limit 1..=30, inner 0..=30),
@@ -894,6 +1090,8 @@ pub fn fuzz_sanitize(sc: &mut Scenario) -> bool {
     sc.epoch_sub_ns %= 1_000_000;
     sc.steps = 4 + sc.steps % 56;
     let steps = sc.steps;
+    // duration_strategy(): None, or anything in 0 ..= tick*steps microseconds
+    sc.sim_duration_us = sc.sim_duration_us.map(|d| d % (sc.tick_us * steps as u64 + 1));
     // dur_strategy(None): 0..=12 | 13..=120 | 1000
     let dur = |d: &mut u64| {
         let x = *d % 122;
